@@ -19,7 +19,7 @@ def sh(cmd, **kw):
 
 def demo_cmd(seed_dir, tree):
     if os.path.exists(os.path.join(seed_dir, "demo.py")):
-        return "cd %s && PYTHONPATH=%s /venv/bin/python demo.py" % (seed_dir, tree)
+        return "cd %s && PYTHONPATH=%s /venv/bin/python demo.py %s" % (seed_dir, tree, tree)
     return "cd %s && sh demo.sh %s" % (seed_dir, tree)
 
 
